@@ -773,3 +773,30 @@ package gorm
 //@ func (*DB).Scan
 //@   tags C15
 //@   ensures cursor-error-recorded-when-no-row: old(cursorErrPending) == 0 ==> cursorErrPending == 0
+
+//@ # ---------- C16: Save inserts a record whose key is not completely set ----------
+//@ # "If value doesn't contain a matching primary key, value is inserted": the UPDATE path (whose WHERE is built from
+//@ # the key parts that are set) is entered for a struct only after EVERY primary field was read from the value and
+//@ # found non-zero - composite keys included.
+//@ ghost keyCheckEntered allKeyPartsSet zeroKeyPartSeen
+//@ event calldyn Field.ValueOf
+//@   in gorm.(*DB).Save
+//@   do zeroKeyPartSeen = ite(result1, 1, zeroKeyPartSeen)
+//@ func (*DB).Save
+//@   tags C16
+//@   assumes handle-well-formed: db.clone > 0 || (db.Statement != nil && db.Statement.DB == db)
+//@   loop "range tx.Statement.Schema.PrimaryFields" entry-do keyCheckEntered = 1
+//@   loop "range tx.Statement.Schema.PrimaryFields" entry-do zeroKeyPartSeen = 0
+//@   loop "range tx.Statement.Schema.PrimaryFields" invariant every-part-so-far-is-set: zeroKeyPartSeen == 0
+//@   loop "range tx.Statement.Schema.PrimaryFields" exit-do allKeyPartsSet = 1
+//@ site save-updates-only-complete-keys
+//@   match call gorm.(*callbacks).Update
+//@   in gorm.(*DB).Save
+//@   min-sites 1
+//@   entry keyCheckEntered == 0 && allKeyPartsSet == 0
+//@   assert every-key-part-was-checked: keyCheckEntered == 1 ==> allKeyPartsSet == 1 [C16]
+//@ site save-reads-the-key-from-the-value
+//@   match calldyn Field.ValueOf
+//@   in gorm.(*DB).Save
+//@   min-sites 1
+//@   assert key-part-of-the-saved-value: arg1 == reflectValue [C16]
